@@ -15,7 +15,8 @@ import os
 from fractions import Fraction
 
 from sa import AnalysisError
-from sa.astutil import dotted, src, stmt_text, params, find_stmts, calls_in, method_name, walk_no_nested, const, deep_resolved
+from sa.boolnf import equivalent
+from sa.astutil import dotted, src, stmt_text, params, find_stmts, calls_in, method_name, walk_no_nested, const, deep_resolved, if_branches
 from sa.algebra import Poly, translate, Unsupported
 from sa.einsum import canon
 
@@ -388,7 +389,18 @@ def check_zero_rules(model, rep):
     ok = bool(first) and 'var.dtype in (bool, int)' in src(first[0].test) and 'var not in func.arguments' in src(first[0].test) and 'Zeros(func.shape + var.shape, dtype=func.dtype)' in src(first[0])
     rep.ob('R04.3', d.key, d.where(), ok, 'derivatives to integer/boolean targets or to targets the expression does not depend on are identically zero' if ok else
            'the zero shortcut of derivative() changed', statement='driver-zero')
-    ok = 'seen[func] = result' in txt and 'if func in seen' in txt and 'result = seen[func]' in txt
+    # whichever way round the lookup is written: a hit takes the stored result, a miss computes it with the node's rule and stores it
+    ok = False
+    for i_ in [s_ for s_ in d.body if isinstance(s_, ast.If)]:
+        t_, f_ = if_branches(d.body, i_)
+        if equivalent(i_.test, 'func in seen'):
+            hit, miss = t_, f_
+        elif equivalent(i_.test, 'func not in seen'):
+            hit, miss = f_, t_
+        else:
+            continue
+        ok = any(src(x) == 'result = seen[func]' for x in hit) and any(isinstance(x, ast.Assign) and src(x.targets[0]) == 'result' and '_derivative(var, seen)' in src(x.value) for x in miss) \
+            and any(src(x) == 'seen[func] = result' for x in miss)
     rep.ob('R04.3', d.key, d.where(), ok, 'shared subterms are differentiated once (memo keyed on the node)', statement='driver-memo')
     ok = '_any_certainly_different(result.shape, func.shape + var.shape)' in txt and 'result.dtype == func.dtype' in txt
     rep.ob('R04.3', d.key, d.where(), ok, 'every rule result is asserted to have shape func.shape+var.shape and the dtype of func' if ok else 'the shape/dtype assertion of derivative() is gone', statement='driver-assert')
